@@ -32,7 +32,7 @@ def tlaset(xs):
 def write(outdir, name, *, pair, role="server", paired=False, auto=False, wait=True,
           stored="none", storedC="none", defects=(), maxfail=1, maxdata=2, timely=True,
           envclose=True, maxsleeps=2, genmode="full", budget=0, hostile_from=0, emit="none", simdepth=0,
-          invariants=(), action_constraints=(), view=True, known_model_keys=None, par=False):
+          invariants=(), action_constraints=(), view=True, known_model_keys=None, par=False, earlydata=False):
     if pair:
         mod = f'''---- MODULE {name} ----
 EXTENDS ShipSme
@@ -84,6 +84,7 @@ CONSTANTS
  HostileBudget = {budget}
  HostileFrom = {hostile_from}
  ParMode = {b(par)}
+ EarlyData = {b(earlydata)}
  EmitMode = "{emit}"
  SimDepth = {simdepth}
 '''
